@@ -322,6 +322,38 @@ def judge_run(j, ranks, ref_ranks, nprocs):
             bad = next((k for k in m if not abs(m[k] - ref_l[k]) <= 1e-12 * dsc), None)
             if bad is not None:
                 j.viol("dist.lump_A", "differs-from-serial", dict(key=[bad[0] * 1e-7, bad[1] * 1e-7], distributed=m[bad], serial=ref_l[bad], scale=dsc))
+    # discontinuous P0 space: gate without neighbour mirrors on a communicator with several processes
+    du, dw = vecs_of(ranks, "dc_u"), vecs_of(ranks, "dc_w")
+    ru, rw = vecs_of(ref_ranks, "dc_u")[0], vecs_of(ref_ranks, "dc_w")[0]
+    alld, dup = {}, False
+    for d in du:
+        for k, v in d.items():
+            dup = dup or (k in alld)
+            alld[k] = v
+    j.events += 1
+    if dup or set(alld) != set(ru):
+        j.viol("dc.dofs", "cells-not-partitioned", dict(duplicate=dup, only_dist=len(set(alld) - set(ru)), only_ref=len(set(ru) - set(alld))))
+    else:
+        exp = {"dc_dot_u_w": (math.fsum(ru[k] * rw[k] for k in ru), 1e-12, 1e-13), "dc_norm2_u": (math.sqrt(math.fsum(v * v for v in ru.values())), 1e-12, 0),
+               "dc_norm2sqr_w": (math.fsum(v * v for v in rw.values()), 1e-12, 0), "dc_max_abs_u": (max(abs(v) for v in ru.values()), 0, 0),
+               "dc_min_abs_u": (min(abs(v) for v in ru.values()), 0, 0)}
+        exp["dc_dot_u_w_async"] = exp["dc_dot_u_w"]
+        exp["dc_norm2_u_async"] = exp["dc_norm2_u"]
+        for name, (val, rel, ab) in exp.items():
+            vals = [s_.get(name) for s_ in sc]
+            j.events += 1
+            if any(v is None for v in vals):
+                j.viol("dc." + name, "scalar-missing", dict(values=vals))
+            elif any(v != vals[0] for v in vals):
+                j.viol("dc." + name, "ranks-disagree", dict(values=vals))
+            elif not close(vals[0], val, rel, ab):
+                j.viol("dc." + name, "differs-from-recomputed", dict(distributed=vals[0], recomputed=val, nprocs=nprocs))
+        for name in ("dc_sync0_post", "dc_sync1_post", "dc_sync0_async_post"):
+            for r, d in enumerate(vecs_of(ranks, name)):
+                j.events += 1
+                if d != du[r]:
+                    j.viol("dc." + name, "synchronisation-of-unshared-dofs-is-not-the-identity", dict(rank=r))
+                    break
     judge_transfers(j, ranks, ref_ranks)
     # rhs: sum of the pre-sync contributions equals the serial vector
     pre = vecs_of(ranks, "rhs_pre")
